@@ -119,7 +119,7 @@ theorem JInv_finish {cfg : Cfg} (wf : WF cfg) {s : State} (h : JInv cfg s) (hs :
       obtain ⟨i', p', h1, h2, h3⟩ := h.run_act j hj
       by_cases e1 : i = i'
       · subst e1
-        exact ⟨i + 1, .cbAcq, by rw [hj1]; exact h1,
+        exact ⟨i + 1, .tAcq, by rw [hj1]; exact h1,
           by simp only [List.getElem?_set]; simp; omega, rfl⟩
       · have e2 : i + 1 ≠ i' := by
           intro e2; subst e2; rw [hnext] at h2; simp at h2; subst h2; simp at h3
@@ -191,7 +191,7 @@ theorem JInv_finish {cfg : Cfg} (wf : WF cfg) {s : State} (h : JInv cfg s) (hs :
 theorem JInv_take {cfg : Cfg} (wf : WF cfg) {s : State} (h : JInv cfg s) (hs : SInv cfg s)
     {j : Nat} {q : List Nat} (hq : s.queue = j :: q) :
     JInv cfg { s with queue := q, idle := s.idle - 1, futs := s.futs.set j .running
-                      tasks := s.tasks.set (cfg.jobStarts.getD j 0) .cbAcq } := by
+                      tasks := s.tasks.set (cfg.jobStarts.getD j 0) .tAcq } := by
   have hjq : j ∈ s.queue := by simp [hq]
   have hpj := hs.q_pending j hjq
   have hjf : j < s.futs.length := getElem?_lt hpj
@@ -213,7 +213,7 @@ theorem JInv_take {cfg : Cfg} (wf : WF cfg) {s : State} (h : JInv cfg s) (hs : S
   · intro j' hj'
     by_cases e : j = j'
     · subst e
-      exact ⟨st, .cbAcq, hsj, by simp [hstl], rfl⟩
+      exact ⟨st, .tAcq, hsj, by simp [hstl], rfl⟩
     · simp only [List.getElem?_set, e, if_false] at hj'
       obtain ⟨i', p', h1, h2, h3⟩ := h.run_act j' hj'
       have e1 : st ≠ i' := by
@@ -311,8 +311,8 @@ theorem JInv_step {cfg : Cfg} (wf : WF cfg) {s s' : State} {l : Label} (hs : SIn
   | exit hq hsd hidle => exact JInv_congr h rfl rfl rfl rfl rfl
   | cbAcq i hi hl => exact JInv_set h hi rfl rfl rfl rfl rfl rfl rfl
   | cbFail i hi hf =>
-      exact JInv_finish wf (s := { s with log := s.log ++ [i], cbLock := false })
-        (JInv_congr h rfl rfl rfl rfl rfl) (SInv_congr hs rfl rfl rfl rfl rfl) false hi rfl
+      exact JInv_finish wf (s := { s with log := s.log ++ [i], cbLock := false, tLocks := s.tLocks.set (cfg.obj i) false })
+        (JInv_congr h rfl rfl rfl rfl rfl) (SInv_congr hs rfl rfl (by simp) rfl rfl) false hi rfl
   | cbOk i hi hf => exact JInv_set h hi rfl rfl rfl rfl rfl rfl rfl
   | tAcq i hi hl => exact JInv_set h hi rfl rfl rfl rfl rfl rfl rfl
   | bTry i p hi hp' =>
@@ -474,7 +474,7 @@ theorem CInv_step {cfg : Cfg} (wf : WF cfg) {s s' : State} {l : Label} (hs : SIn
   | cbAcq i hi hl => exact CInv_frame h rfl rfl (fun _ hj' => hj')
   | cbFail i hi hf =>
       refine CInv_frame h (by simp) (by simp) (fun j' hj' => ?_)
-      exact finishTask_futs_ok (s := { s with log := s.log ++ [i], cbLock := false })
+      exact finishTask_futs_ok (s := { s with log := s.log ++ [i], cbLock := false, tLocks := s.tLocks.set (cfg.obj i) false })
         (JInv_congr hj rfl rfl rfl rfl rfl) false hi rfl j' hj'
   | cbOk i hi hf => exact CInv_frame h rfl rfl (fun _ hj' => hj')
   | tAcq i hi hl => exact CInv_frame h rfl rfl (fun _ hj' => hj')
